@@ -2126,6 +2126,10 @@ class ExpressionEvaluator(Parser):
             if operator.token == "?":
                 condition = expr
                 false_result = rhs
+                true_result, false_result = self.__convert(
+                    true_result,
+                    false_result,
+                )
                 expr = true_result if condition else false_result
             else:
                 expr = self.__apply_binary_op(operator.token, expr, rhs)
@@ -2168,10 +2172,28 @@ class ExpressionEvaluator(Parser):
             raise ValueError("Not a valid unary operator.")
 
     @staticmethod
+    def __convert(lhs, rhs):
+        """
+        Apply the usual arithmetic conversions: if exactly one operand is
+        unsigned, the other operand is converted to unsigned.
+        """
+        if isinstance(lhs, np.uint64) and not isinstance(rhs, np.uint64):
+            rhs = np.int64(rhs).astype(np.uint64)
+        elif isinstance(rhs, np.uint64) and not isinstance(lhs, np.uint64):
+            lhs = np.int64(lhs).astype(np.uint64)
+        return (lhs, rhs)
+
+    @staticmethod
     def __apply_binary_op(op, lhs, rhs):
         """
         Apply the specified binary operator: lhs op rhs
         """
+        if op in ["<<", ">>"]:
+            # The result of a shift has the type of the left operand.
+            rhs = rhs.astype(lhs.dtype)
+        elif op not in ["||", "&&"]:
+            lhs, rhs = ExpressionEvaluator.__convert(lhs, rhs)
+
         # Logical, equality and relational operators yield the int 0 or 1.
         if op == "||":
             return np.int64(bool(lhs) or bool(rhs))
